@@ -197,6 +197,13 @@ fn part_random_closures(ctx: &Ctx, sink: &mut Sink) {
                 setup.push(stmt);
             }
         }
+        // half of the cases also have a top-level binding named like the parameter
+        if r.chance(1, 2) {
+            let stmt = format!("x = {}", 40 + r.below(9));
+            if sess.eval(&stmt).is_ok() {
+                setup.push(stmt);
+            }
+        }
         let depth = 2 + r.below(5);
         let rt = *r.pick(&[Ty::Num, Ty::Num, Ty::LNum, Ty::Rec, Ty::Bool]);
         let body = {
